@@ -10,10 +10,12 @@ import (
 	"errors"
 	"fmt"
 	"os"
+	"os/signal"
 	"path/filepath"
 	"sort"
 	"strings"
 	"sync"
+	"syscall"
 	"time"
 
 	"github.com/containerd/nri/pkg/api"
@@ -43,6 +45,8 @@ type plugin struct {
 	die      bool
 	failSync bool
 	hang     bool
+	linger   bool
+	st       stub.Stub
 }
 
 func (p *plugin) save() {
@@ -63,6 +67,10 @@ func (p *plugin) Configure(_ context.Context, cfg, rt, ver string) (api.EventMas
 func (p *plugin) Synchronize(context.Context, []*api.PodSandbox, []*api.Container) ([]*api.ContainerUpdate, error) {
 	if p.failSync {
 		return nil, errors.New("probe: deliberate synchronization failure")
+	}
+	if p.linger && p.st != nil {
+		// closes its connection soon after it was synchronized - and stays around: NRI has to kill it when it stops
+		go func() { time.Sleep(100 * time.Millisecond); p.st.Stop() }()
 	}
 	return nil, nil
 }
@@ -107,7 +115,13 @@ func main() {
 			rep.Fds[e.Name()] = t
 		}
 	}
-	p := &plugin{rep: rep, dir: c.Reports, path: filepath.Join(c.Reports, fmt.Sprintf("%s.%d.json", name, os.Getpid())), die: c.Behaviour == "dielater", failSync: c.Behaviour == "failsync", hang: c.Behaviour == "hang"}
+	p := &plugin{rep: rep, dir: c.Reports, path: filepath.Join(c.Reports, fmt.Sprintf("%s.%d.json", name, os.Getpid())), die: c.Behaviour == "dielater", failSync: c.Behaviour == "failsync", hang: c.Behaviour == "hang",
+		linger: c.Behaviour == "linger"}
+	stays := c.Behaviour == "hang" || c.Behaviour == "linger" || c.Behaviour == "stubborn"
+	if c.Behaviour == "stubborn" {
+		// healthy, but deaf to polite requests to leave: only a kill ends it
+		signal.Ignore(syscall.SIGINT, syscall.SIGTERM, syscall.SIGHUP, syscall.SIGQUIT)
+	}
 	p.save()
 	switch c.Behaviour {
 	case "exit":
@@ -116,7 +130,7 @@ func main() {
 		time.Sleep(time.Hour)
 	}
 	opts := []stub.Option{stub.WithOnClose(func() {
-		if c.Behaviour != "hang" { // a hanging plugin does not even leave when its connection is closed: it has to be killed
+		if !stays { // these do not even leave when their connection is closed: they have to be killed
 			os.Exit(0)
 		}
 	})}
@@ -131,8 +145,9 @@ func main() {
 		fmt.Fprintln(os.Stderr, "probe:", err)
 		os.Exit(2)
 	}
+	p.st = st
 	err = st.Run(context.Background())
-	if c.Behaviour == "hang" {
+	if stays {
 		time.Sleep(time.Hour)
 	}
 	if err != nil {
